@@ -527,6 +527,8 @@ func judge(ctx *core.Ctx, c *Case, o *Obs) {
 		judgeUpload(ctx, c, o)
 	case "accept":
 		judgeAccept(ctx, c, o)
+	case "dialtl":
+		judgeLattice(ctx, c, o)
 	default:
 		judgeFault(ctx, c, o)
 	}
